@@ -200,14 +200,20 @@ func hDecodeCommands(p *lorawan.PHYPayload) {
 // hFrameOps: encode, text-encode, decode (fresh receiver / the receiver of the
 // sequence, by-value copy kept / text / with the MAC commands decoded and then
 // edited in place), and the refused encodings.
+// hRefusedGood: frames of the good alphabet that the encoder of the tree under check refuses.
+var hRefusedGood [][2]string
+
 func hFrameOps() []HOp {
 	var ops []HOp
+	hRefusedGood = nil
 	for _, f := range hGoodFrames() {
 		f := f
 		fr := f.mk()
 		wire, err := fr.MarshalBinary()
 		if err != nil {
-			panic("history alphabet: frame " + f.name + " is not encodable: " + err.Error())
+			// judged by frameHistory; the frame is left out of the alphabet
+			hRefusedGood = append(hRefusedGood, [2]string{f.name, err.Error()})
+			continue
 		}
 		text, _ := fr.MarshalText()
 		ops = append(ops,
